@@ -23,6 +23,9 @@ type Case struct {
 	Level   string // "raw", "listen" or "" = both
 	// for prefix+suffix cases: the well-formed messages that end the stream
 	Suffix []ev.Hex `json:",omitempty"`
+	// Before: bytes sent during an EARLIER listening on the same port (listen, send Before, stop,
+	// listen again, send Chunks): the second listening must behave like a fresh receiver
+	Before []live.Chunk `json:",omitempty"`
 }
 
 func filterDontCare(obs []live.Obs) []live.Obs {
@@ -106,7 +109,21 @@ func run(c Case) (res ev.Result) {
 		}
 	}
 	if c.Level != "raw" {
-		obs, failed := live.RunListen(c.Chunks, opts)
+		runListen := live.RunListen
+		if len(c.Before) > 0 {
+			var loop *live.Loop
+			if p := ev.Try(func() { loop = live.NewLoop() }); p != "" {
+				res.Violation = p
+				return
+			}
+			if _, failed := loop.Run(c.Before, opts); failed != "" {
+				res.Violation = "earlier listening on the same port: " + failed
+				return
+			}
+			runListen = loop.Run
+			res.Classes = append(res.Classes, "second-listening-on-the-same-port")
+		}
+		obs, failed := runListen(c.Chunks, opts)
 		if s := compare("midi.ListenTo", obs, failed, rc, stream); s != "" {
 			res.Violation = s
 			return
@@ -264,6 +281,11 @@ func genRandom(t *rapid.T) Case {
 		}
 	}
 	c.Chunks = live.Chunking(t, stream, 50)
+	if rapid.IntRange(0, 3).Draw(t, "earlierListening?") == 0 {
+		// something that leaves a decoder in the middle of a message / of a sysex / with running status
+		b := rapid.SampledFrom([][]byte{{0x90, 0x3C}, {0x90, 0x3C, 0x40}, {0xF0, 0x01, 0x02}, {0xF2, 0x10}, {0xB1, 0x07, 0x7F, 0x08}, {0xE3}, {0xF0}}).Draw(t, "before")
+		c.Before = []live.Chunk{{Data: b, Delta: 1}}
+	}
 	return c
 }
 
@@ -285,7 +307,7 @@ func wellFormed(t *rapid.T, buf int) []byte {
 }
 
 var random = ev.NewCheck("C06", "random-streams",
-	"rapid: streams of up to ~4000 bytes built from segments (uniform random bytes over all 256 values, status-heavy noise, sysex of buffer size -3..+70 terminated or not and with real-time inside, running-status runs, undefined/unpaired bytes, well-formed messages), optionally followed by a well-formed suffix of 1..6 messages starting with an explicit non-real-time status; buffer sizes 3,4,8,64,1024; chunked as one call / byte-wise / random pieces; both observation points; oracle = reference receiver (F9/FD don't-care), well-formedness, suffix decoded exactly; non-trivial as above; distinct by stream+chunking hash",
+	"rapid: streams of up to ~4000 bytes built from segments (uniform random bytes over all 256 values, status-heavy noise, sysex of buffer size -3..+70 terminated or not and with real-time inside, running-status runs, undefined/unpaired bytes, well-formed messages), optionally followed by a well-formed suffix of 1..6 messages starting with an explicit non-real-time status; buffer sizes 3,4,8,64,1024; chunked as one call / byte-wise / random pieces; both observation points; in one case of four an earlier listening on the same port was left in the middle of a message (listen - stop - listen again must start with a fresh decoder); oracle = reference receiver (F9/FD don't-care), well-formedness, suffix decoded exactly; non-trivial as above; distinct by stream+chunking hash",
 	genRandom, run)
 
 func TestPropRandomStreams(t *testing.T) { random.Rapid(t, 3000, 10000) }
